@@ -217,6 +217,8 @@ def render_header(st, hid):
     L = ['/* header %s */' % hid, '#ifndef G_%s' % hid, '#define G_%s' % hid]
     for d, c in h['inc']:
         L.append('#include "%s"' % inc_spelling(st, 'h' + hid, d))
+    if h.get('broken'):
+        L.append('this header does not compile (saved half-way through an edit);')
     L.append('#define H_%s (%s)' % (hid, _expr(h['base'], h['inc'])))
     L.append('#endif')
     return '\n'.join(L) + '\n'
@@ -416,6 +418,19 @@ def apply(st, op):
         info['edited'] = hdr_path(st, hid)
         del H[hid]
         del st['broken']
+    elif k == 'break_header':
+        # a header saved with a mistake in it; the sources that include it are not touched
+        if H[op['h']].get('broken'):
+            raise ValueError('already broken')
+        H[op['h']]['broken'] = True
+        info['edited'] = hdr_path(st, op['h'])
+    elif k == 'fix_header':
+        # ... and repaired, with new contents
+        if not H[op['h']].get('broken') or H[op['h']]['base'] == op['base']:
+            raise ValueError('not broken')
+        del H[op['h']]['broken']
+        H[op['h']]['base'] = op['base']
+        info['edited'] = hdr_path(st, op['h'])
     elif k in ('noop', 'clean'):
         pass
     elif k == 'add_source':
@@ -949,6 +964,32 @@ def gen_history(rng, st, n, p_special, allow_regen=True):
             for o in hist[at:]:
                 post, _ = apply(post, o)
             hist[at:at] = [op, {'op': 'unbreak_tu', 'h': op['h']}]
+        except (ValueError, KeyError):
+            pass
+    if st.get('work_in_progress', True):
+        # the same with the mistake in a HEADER: the build fails, the old objects stay; the
+        # repaired header (new contents) has to reach every object that includes it
+        at = rng.randrange(len(hist) + 1)
+        try:
+            pre = st
+            for o in hist[:at]:
+                pre, _ = apply(pre, o)
+            # (only in projects whose header names are all plain: what a special character in
+            # ANY name of a depfile does to the rest of it is judged by the ordinary edits)
+            if pre.get('broken') is None and \
+               not any(name_chars(hdr_path(pre, x)) for x in pre['headers']):
+                cands = [h for h in sorted(pre['headers'], key=int)
+                         if any(includers(pre, h)) and h not in only_through_pch(pre) and
+                         not pre['headers'][h].get('orphan')]
+                if cands:
+                    hid = rng.choice(cands)
+                    ops = [{'op': 'break_header', 'h': hid},
+                           {'op': 'fix_header', 'h': hid,
+                            'base': pre['headers'][hid]['base'] + rng.randint(1, 50)}]
+                    post = pre
+                    for o in ops + hist[at:]:
+                        post, _ = apply(post, o)
+                    hist[at:at] = ops
         except (ValueError, KeyError):
             pass
     hist.append({'op': 'clean'})
